@@ -307,19 +307,35 @@ Section S.
   Definition s_retain_edges (keep : nat -> bool) (s : sgraph) : res sgraph :=
     rbind (s_retain_edges_loop keep s 0 (edge_bound s)) checked.
 
-  (* ensure_node_exists *)
-  Fixpoint add_vacant_until (fuel : nat) (s : sgraph) (ix : nat) : res sgraph :=
+  (* ensure_node_exists.  The padding loop pushes one vacant slot per iteration; g.add_node(None)
+     panics when the vector already has cap entries, and every slot pushed by the earlier iterations
+     stays in the graph (at the head of the free list).  So the state reached is returned together
+     with the result, as in GraphM.add_nodes_until. *)
+  Fixpoint add_vacant_until (fuel : nat) (s : sgraph) (ix : nat) : res unit * sgraph :=
     match fuel with
-    | 0 => OutOfFuel
+    | 0 => (OutOfFuel, s)
     | S f =>
-        if Nat.ltb ix (length (gnodes (sg s))) then Ok s
-        else rbind (add_vacant_node (sg s) (free_node s)) (fun '(g', fr) =>
-               add_vacant_until f (mkSG g' (ncount s) (ecount s) fr (free_edge s)) ix)
+        if Nat.ltb ix (length (gnodes (sg s))) then (Ok tt, s)
+        else match add_vacant_node (sg s) (free_node s) with
+             | Ok (g', fr) => add_vacant_until f (mkSG g' (ncount s) (ecount s) fr (free_edge s)) ix
+             | Panic => (Panic, s)
+             | OutOfFuel => (OutOfFuel, s)
+             end
     end.
-  Definition ensure_node_exists (s : sgraph) (ix : nat) : res sgraph :=
+  (* (Ok tt, s') = done; (Panic, s') = panicked, s' is what is left behind *)
+  Definition ensure_node_exists (s : sgraph) (ix : nat) : res unit * sgraph :=
     match get_node s ix with
-    | Some _ => Ok s
-    | None => rbind (add_vacant_until (S (S ix)) s ix) (fun s1 => occupy_vacant_node s1 ix 0)
+    | Some _ => (Ok tt, s)
+    | None =>
+        match add_vacant_until (S (S ix)) s ix with
+        | (Ok _, s1) =>
+            match occupy_vacant_node s1 ix 0 with
+            | Ok s2 => (Ok tt, s2)
+            | Panic => (Panic, s1)
+            | OutOfFuel => (OutOfFuel, s1)
+            end
+        | (r, s1) => (r, s1)
+        end
     end.
 
   (* extend_with_edges: (false, s') = panicked part-way, s' is what is left behind *)
@@ -328,17 +344,17 @@ Section S.
     | [] => (true, s)
     | (a, b, w) :: rest =>
         match ensure_node_exists s a with
-        | Ok s1 =>
+        | (Ok _, s1) =>
             match ensure_node_exists s1 b with
-            | Ok s2 =>
+            | (Ok _, s2) =>
                 match s_try_add_edge s2 a b w with
                 | Ok (inr _, s3) => s_extend_with_edges s3 rest
                 | Ok (inl _, s3) => (false, s3)
                 | _ => (false, s2)
                 end
-            | _ => (false, s1)
+            | (_, s2) => (false, s2)
             end
-        | _ => (false, s)
+        | (_, s1) => (false, s1)
         end
     end.
 
